@@ -2,7 +2,7 @@
     Only statements; the proofs live in Proofs/. *)
 From Coq Require Import ZArith List Bool Lia.
 From VD Require Import Base.Bytes Base.PixFmt Model.ClientMsgs Model.Pointer Model.ClientOps Spec.C2S.
-From VD Require Import Proofs.C2SP Proofs.PointerP Proofs.ClientOpsP.
+From VD Require Import Proofs.C2SP Proofs.PointerP Proofs.ClientOpsP Proofs.FramingP.
 Import ListNotations.
 Open Scope Z_scope.
 
@@ -37,6 +37,41 @@ Theorem C19_fixed_layouts : forall key down x y mask,
   pointerEvent x y mask = Some ([5; mask] ++ be_enc 2 x ++ be_enc 2 y).
 Proof. exact layouts_fixed. Qed.
 Print Assumptions C19_fixed_layouts.
+
+(** "The server's parser can never lose message framing": however a run of in-range operations
+    is cut into the operations so far and the rest, the bytes written so far are whole messages
+    (exactly those of the operations so far), the rest likewise, and the stream is their
+    concatenation - at no operation boundary is a reader left inside a message. *)
+Theorem C19_framing_at_every_boundary : forall s o1 o2 s' ms,
+  ops_spec s (o1 ++ o2) s' ms ->
+  exists sm m1 m2 ws1 b1 ws2 b2,
+    run_ops s o1 = (sm, ws1) /\ cat_some ws1 = Some b1 /\ parse_c2s b1 = Some m1 /\
+    run_ops sm o2 = (s', ws2) /\ cat_some ws2 = Some b2 /\ parse_c2s b2 = Some m2 /\
+    ms = m1 ++ m2 /\
+    run_ops s (o1 ++ o2) = (s', ws1 ++ ws2) /\ cat_some (ws1 ++ ws2) = Some (b1 ++ b2) /\
+    parse_c2s (b1 ++ b2) = Some (m1 ++ m2).
+Proof. exact framing_at_every_boundary. Qed.
+Print Assumptions C19_framing_at_every_boundary.
+
+(** The reading is the only one: the executable parser finds exactly the readings the RFC grammar
+    (the relation [Parses]: one message, then the rest) admits, so whatever message list an RFC
+    reader finds in the stream of an in-range run is the list the operations stand for. *)
+Theorem C19_parser_is_the_grammar : forall b ms, parse_c2s b = Some ms <-> Parses b ms.
+Proof. intros b ms; split; [apply Parses_complete|apply Parses_sound]. Qed.
+Print Assumptions C19_parser_is_the_grammar.
+
+Theorem C19_reading_unique : forall s ops s' ms,
+  ops_spec s ops s' ms ->
+  forall ws b ms', run_ops s ops = (s', ws) -> cat_some ws = Some b -> Parses b ms' -> ms' = ms.
+Proof. exact run_reading_unique. Qed.
+Print Assumptions C19_reading_unique.
+
+(** A stream that parses can be cut into two readable halves only at a message boundary: if a
+    prefix reads as [ma], the whole reads as [ma] followed by a reading of the remainder. *)
+Theorem C19_cut_only_at_boundaries : forall a ma b ms,
+  Parses a ma -> Parses (a ++ b) ms -> exists mb, Parses b mb /\ ms = ma ++ mb.
+Proof. intros a ma b ms; apply Parses_prefix. Qed.
+Print Assumptions C19_cut_only_at_boundaries.
 
 (** non-vacuity: a concrete mixed history meets the hypotheses *)
 Example C19_nonvacuous :
